@@ -29,7 +29,11 @@ func (node *tagWidthratioNode) Execute(ctx *ExecutionContext, writer TemplateWri
 	}
 
 	// round to the nearest integer (as Django does); Ceil(x + 0.5) was one too high for every x that is not an exact half
-	value := int(math.Round(current.Float() / max.Float() * width.Float()))
+	// (there is no ratio to a maximum of 0: the result is 0, as in Django, not the integer conversion of Inf / NaN)
+	value := 0
+	if max.Float() != 0 {
+		value = int(math.Round(current.Float() / max.Float() * width.Float()))
+	}
 
 	if node.ctxName == "" {
 		writer.WriteString(fmt.Sprintf("%d", value))
